@@ -32,7 +32,7 @@ CHECKS = {
    note="Trusted: SimStream's BytesIO-compatible semantics and accounting; budget constants K_ops=128*W, K_bytes=256*W, K_read=8*W with W=max(file size, 4096) - a factor 32 / 16 / 8 above what any run on the unchanged tree needs (histogram probes in the evidence); they separate loops bounded by the file size or a 16-bit count from loops driven by an unchecked 32/64-bit field. Loops that do no I/O are only caught by the wall-clock watchdog. Allocations below the bound are not judged; the screening stage reads /proc/self/status."),
  'C10': dict(engine='histsim', category='exploration', design_ref='DESIGN.md section 3 / C10',
    technique='deterministic simulation: seeded cooperative scheduler interleaving client tasks step by step (one API call / one next() per step) on one shared opened file, with cursor displacement and iterator abandonment injected between steps; oracle = solo execution on a fresh object + sequential catalogue',
-   text="Seeded search over call histories: 1-4 client tasks x 1-8 ops drawn from ~80 public read-only op kinds (ELF and DWARF level), every library iterator interruptible at every element, cursor of every shared stream (file and each debug section) displaced between steps, iterators abandoned half-way, repeated queries, a second DWARFInfo mid-history (also with other get_dwarf_info arguments than the calls before it). Each step must equal the same step of the op run alone on a fresh object; solo answers must agree with the sequential catalogue (linear DIE scan + derived nesting, linear table scans). Sampling of histories: evidence, not proof.",
+   text="Seeded search over call histories: 1-4 client tasks x 1-8 ops drawn from ~80 public read-only op kinds (ELF and DWARF level), every library iterator interruptible at every element, cursor of every shared stream (file and each debug section) displaced between steps, iterators abandoned half-way, repeated queries, a second DWARFInfo mid-history (also with other get_dwarf_info arguments than the calls before it), an entry held by the caller while every other unit of a 40-unit file is visited. Each step must equal the same step of the op run alone on a fresh object; solo answers must agree with the sequential catalogue (linear DIE scan + derived nesting, linear table scans). Sampling of histories: evidence, not proof.",
    note="Trusted: SimStream semantics, the canonicaliser, the catalogue's nesting model. The solo reference is the same library in isolation, so an error identical in every history is invisible here by design (that is what the pure-decode properties are about). Arguments stay inside each query's documented domain."),
  'C13': dict(engine='histsim', category='exploration', design_ref='DESIGN.md section 3 / C13',
    technique='deterministic simulation: the E1 scheduler with the op mix restricted to unit / address-range / name-table lookups over the lazily filled, bisect-maintained unit cache; oracle = linear scans of the tables and unit extents + solo execution',
@@ -40,15 +40,15 @@ CHECKS = {
    note="Overlapping address ranges (and zero-length ranges inside another range) are outside the quantifier: soundness only / not generated. 64-bit DWARF tables are not modelled (the library does not support them). Trusted: as C10, plus the small raw readers/encoders in dst/core/rawdwarf.py and dst/engines/lutgen.py."),
  'C11': dict(engine='storesim', category='exploration', design_ref='DESIGN.md section 3 / C11',
    technique='deterministic simulation with fault injection: the storage container and the linked peer files are swapped under the unchanged library (simulated disk + stream_loader seam), stored size declarations and checksums are damaged; oracle = canonical DWARF view of the plain container',
-   text="Per image with debug info: the same logical debug bytes re-stored plainly, gABI-compressed (3 levels), legacy .zdebug (all / only-shrinking / seeded subsets), split behind a CRC-checked debug link (peer plain/gABI/legacy, served by the simulated loader), with/without follow_links and loader, supplementary-link pairs with compressed main/peer; the full canonical view (units, entries, line tables, both frame tables incl. decoded rows, type units, aranges, pubnames, loc/range lists) must equal the plain container's. Enumerated faults: declared size != inflated size (gABI and legacy, both directions) and checksum mismatch (wrong file, flipped byte, truncated peer, damaged checksum field) must be rejected. Enumerated configurations per image + seeded compositions.",
+   text="Per image with debug info: the same logical debug bytes re-stored plainly, gABI-compressed (3 levels), legacy .zdebug (all / only-shrinking / seeded subsets), split behind a CRC-checked debug link (peer plain/gABI/legacy, served by the simulated loader), with/without follow_links and loader, supplementary-link pairs with compressed main/peer; seeded synthetic units (own writer, DWARF v2-v5, both classes and byte orders) stored in one file and dwz-style with a subset of their strings moved behind .gnu_debugaltlink / .debug_sup, compared entry for entry with each other and with what the writer encoded; the full canonical view (units, entries, line tables, both frame tables incl. decoded rows, type units, aranges, pubnames, loc/range lists) must equal the plain container's. Enumerated faults: declared size != inflated size (gABI and legacy, both directions) and checksum mismatch (wrong file, flipped byte, truncated peer, damaged checksum field) must be rejected. Enumerated configurations per image + seeded compositions.",
    note="Trusted: dst/core/elfedit.py (raw-byte container transforms, cross-checked with GNU readelf during development), zlib. Only the two rejections the statement names are demanded. Images with duplicate debug section names, inconsistent shipped containers or without section headers are skipped and counted."),
  'C09': dict(engine='storesim', category='fault_enumeration', design_ref='DESIGN.md section 3 / C09',
    technique='deterministic simulation with fault injection: loss of the section-header table (3 enumerated fault kinds on the simulated disk) with seeded query orders and cursor displacement over the DynamicSegment recovery path; oracle = section view of the intact image',
-   text="For every corpus image with PT_DYNAMIC whose dynamic pointers lie in PT_LOAD file extents, and for seeded synthetic dynamically linked images written by an own ELF writer (two PT_LOADs with different bias, REL/RELA/RELR, EM_MIPS ELF64 layout, duplicated tag types, tail-merged and non-ASCII strings, junk after the terminator): section headers lost in three ways (fields zeroed; + table overwritten with noise; + file truncated at the table), or kept (intact mode), or with a decoy pointer tag, x seeded query orders with cursor displacement; tags (also filtered by type and by index), strings, symbol count (when a hash table is present), symbols, name lookups, relocation tables and table offsets obtained through the DynamicSegment must equal the section view of the intact image field for field - and, on the synthetic images, the ground truth the writer encoded (so a decode error shared by both views is visible there). The fault classes are enumerated completely over the eligible images.",
+   text="For every corpus image with PT_DYNAMIC whose dynamic pointers lie in PT_LOAD file extents, and for seeded synthetic dynamically linked images written by an own ELF writer (two PT_LOADs with different bias, REL/RELA/RELR, EM_MIPS ELF64 layout, duplicated tag types, tail-merged and non-ASCII strings, junk after the terminator): section headers lost in three ways (fields zeroed; + table overwritten with noise; + file truncated at the table), or kept (intact mode), or with a decoy pointer tag, or with the .dynamic section header displaced one entry into the table and linked to another string table (the configuration the quantifier names), or after another corpus image of the same machine but another OS ABI was read in the same process (reference view from a pristine process), x seeded query orders with cursor displacement; tags (also filtered by type and by index), strings, symbol count (when a hash table is present), symbols, name lookups, relocation tables and table offsets obtained through the DynamicSegment must equal the section view of the intact image field for field - and, on the synthetic images, the ground truth the writer encoded (so a decode error shared by both views is visible there). The fault classes are enumerated completely over the eligible images.",
    note="On corpus images both views share the tag/symbol/relocation decoders, so a consistent decode error is only visible on the synthetic images (ground truth). Preconditions computed by an independent struct-based reader (dst/core/elfraw.py). Trusted: the image writer dst/core/elfbuild.py (cross-read with GNU readelf during development)."),
  'C03': dict(engine='idxsim', category='exploration', design_ref='DESIGN.md section 3 / C03',
    technique='deterministic simulation with fault injection: hash-index events (31-bit hash collisions, bloom false positives) injected as stored bytes on the simulated disk, seeded query workloads with cursor displacement; oracle = linear scan of the symbol table + raw chain walk',
-   text="Scope: the lookup and count clauses on every image; on synthetic images also the enumeration clause against the writer's ground truth (name, value, size, binding, type, visibility, other bits, section index of every entry; extended section indices through an SHT_SYMTAB_SHNDX companion table). For every SysV/GNU hash section of the corpus, the same tables reached through the dynamic segment of the image without section headers, and seeded synthetic images with an own hash-table 'linker' (bloom sizes 1-8 incl. non powers of two, 1-16 buckets, symoffset anywhere, chains ending at the table end, colliding/long/non-ASCII names, padded symbol entries, both classes and byte orders): seeded query lists (present names, constructed same-hash absent names, same-bucket absent names, random absent, empty, non-ASCII, unhashed symbols) with cursor displacement between queries, with injected chain-word collisions and bloom false positives; completeness and soundness of hash lookup, exactness of get_symbol_by_name, and the recovered count are compared with a linear scan of the linked table (synthetic images: with the names the writer encoded) and the raw bucket/chain walk.",
+   text="Scope: the lookup and count clauses on every image; on synthetic images also the enumeration clause against the writer's ground truth (name, value, size, binding, type, visibility, other bits, section index of every entry; extended section indices through an SHT_SYMTAB_SHNDX companion table). For every SysV/GNU hash section of the corpus, the same tables reached through the dynamic segment of the image without section headers, and seeded synthetic images with an own hash-table 'linker' (bloom sizes 1-8 incl. non powers of two, 1-16 buckets, symoffset anywhere, chains ending at the table end, colliding/long/non-ASCII names, padded symbol entries, both classes and byte orders): seeded query lists (present names, constructed same-hash absent names, same-bucket absent names, random absent, empty, non-ASCII, unhashed symbols; enumerations of the held table, abandoned after k entries or complete, in between) with cursor displacement between queries, with injected chain-word collisions and bloom false positives; completeness and soundness of hash lookup, exactness of get_symbol_by_name, and the recovered count are compared with a linear scan of the linked table (synthetic images: with the names the writer encoded) and the raw bucket/chain walk.",
    note="That each enumerated symbol equals its encoded bytes is pure decode and only judged on synthetic images (ground truth of the writer). The count clause is asserted only for tables satisfying the GNU format invariant (every index >= symoffset is hashed); ld's empty-table convention is counted as outside the envelope. Trusted: reference hash functions and raw table walk in dst/core/elfraw.py, the image writer dst/core/elfbuild.py."),
 }
 
